@@ -39,6 +39,7 @@ K_ITEM31 = "on-up-without-pool-futures-marks-host-up-without-notifying-listeners
 K_DISCOUNT = "pool-shut-down-by-own-failure-stays-after-discounted-down-event"
 K_STALE_COUNT = "hostconnectionpool-open-count-still-counts-defunct-connection-down-event-discounted"
 K_ONUP_RACE = "on-up-completion-callback-races-with-futures-set-duplicate-on-up"
+K_ONUP_STUCK = "on-up-completion-callback-races-with-futures-set-host-never-marked-up"
 
 
 def run_history(seed):
@@ -122,7 +123,7 @@ def run_history(seed):
 
     uids = iter(range(1, 100000))
     counters = {'quiescent_checks': 0, 'down_host_checks': 0, 'handlers_seen': 0, 'reconnector_conns': 0, 'removals_observed': 0,
-                'final_hosts': 0, 'final_pools': 0, 'notifications': 0}
+                'final_hosts': 0, 'final_hosts_of_unknown_state': 0, 'final_pools': 0, 'notifications': 0}
 
     with env:
         prof = ExecutionProfile(load_balancing_policy=RecordingPolicy(), request_timeout=5.0, retry_policy=FallthroughRetryPolicy())
@@ -186,7 +187,8 @@ def run_history(seed):
                             viol.append(('down-host-without-reconnector', "host %s is down (is_up False, still a member) but no reconnection handler is scheduled at t=%.2f (%s)" % (
                                 a, w.now, label), {'host_reconnection_handler_set': h._reconnection_handler is not None,
                                                    'handler_cancelled': getattr(h._reconnection_handler, '_cancelled', None)}))
-                    elif h.is_up and n_live:
+                    elif h.is_up and n_live and label == 'final':
+                        # (in between, an on_down overtaken by an on_up may leave a handler that ends itself with its next successful attempt: not judged)
                         viol.append(('up-host-with-live-reconnector', "host %s is up but a reconnection handler is still scheduled at t=%.2f (%s)" % (a, w.now, label), {}))
                 for hid, hs in live.items():
                     if hid not in mem_ids:
@@ -294,9 +296,11 @@ def run_history(seed):
                 a = h.endpoint.address
                 counters['final_hosts'] += 1
                 exhausted = max_attempts is not None
-                if h.is_up is not True and not exhausted:
+                if h.is_up is None:
+                    counters['final_hosts_of_unknown_state'] += 1       # neither marked up nor down (e.g. a discounted failure while the host was being added): not judged
+                if h.is_up is False and not exhausted:
                     viol.append(('host-not-up-at-final-quiescence', "host %s has is_up=%r although its node has been healthy for 37 virtual seconds" % (a, h.is_up),
-                                 {'live_handlers': len(live.get(id(h), ())), 'handling_node_up_flag': h._currently_handling_node_up,
+                                 {'live_handlers': len(live.get(id(h), ())), 'handling_node_up_flag': h._currently_handling_node_up, 'sessions': n_sessions,
                                   'reconnection_handler_set': h._reconnection_handler is not None}))
                 # what the observers were last told about this host object
                 for who in ('listener', 'policy'):
@@ -310,7 +314,7 @@ def run_history(seed):
                                                                 'pools_needed': sum(1 for s in sessions if not s.is_shutdown)}))
                     if h.is_up is False and told_up and not exhausted:
                         viol.append(('observer-not-told-down', "%s was last told %r about host %s but the host is marked down at the final quiescence" % (who, last[-1][2], a),
-                                     {'who': who}))
+                                     {'who': who, 'handling_node_up_flag': h._currently_handling_node_up, 'live_handlers': len(live.get(id(h), ())), 'sessions': n_sessions}))
                 if h.is_up:
                     for si, s in enumerate(sessions):
                         pool = s._pools.get(h)
@@ -331,7 +335,7 @@ def run_history(seed):
                 prev = None
                 for n in seq:
                     k = n[2]
-                    if k == 'up' and state in ('up', 'add'):
+                    if k == 'up' and state == 'up':
                         between = [m for m in notes if m[4] == hid and m[1] != who and notes.index(prev) < notes.index(m) < notes.index(n)]
                         viol.append(('duplicate-on-up', "%s got on_up for host %s at t=%.2f although it had already been told %s at t=%.2f and no on_down in between" % (
                             who, n[3], n[0], state, prev[0]), {'who': who, 'previous': state, 'sessions': n_sessions, 'same_instant': abs(n[0] - prev[0]) < 1e-3,
@@ -345,9 +349,10 @@ def run_history(seed):
                 continue
             counters['removals_observed'] += 1
             t_rm, a = n[0], n[3]
-            t_next = min([m[0] for m in lnotes[i + 1:] if m[2] == 'add' and m[3] == a] or [float('inf')])
+            # the host object is a member again from Cluster.on_add on; the policy is told at its start, listeners only once a pool exists
+            t_next = min([m[0] for m in notes[notes.index(n) + 1:] if m[2] == 'add' and m[3] == a] or [float('inf')])
             for c in env.net.conns:
-                if c.sim_creator == 'reconnector' and str(c.endpoint.address) == a and t_rm + 1e-3 < c.sim_created_at < t_next:
+                if c.sim_creator == 'reconnector' and str(c.endpoint.address) == a and t_rm + 1e-3 < c.sim_created_at < t_next - 1e-3:
                     viol.append(('removed-host-reconnected', "a reconnection attempt to removed host %s was made at t=%.2f (removed at t=%.2f, not re-added before)" % (
                         a, c.sim_created_at, t_rm), {}))
                     break
@@ -369,6 +374,10 @@ def classify(v, info):
     if mech == 'duplicate-on-up' and d.get('who') == 'listener' and d.get('previous') == 'up' and d.get('sessions', 0) >= 2 and d.get('same_instant') \
             and not d.get('other_observer_notified_in_between'):
         return K_ONUP_RACE
+    if mech in ('host-not-up-at-final-quiescence', 'observer-not-told-down') and d.get('handling_node_up_flag') and d.get('live_handlers') == 0 \
+            and d.get('sessions', 0) >= 2 and d.get('who', 'policy') == 'policy':
+        # the other outcome of the same race: each completion callback finds the other (stale) future in the set, nobody finishes on_up
+        return K_ONUP_STUCK
     return mech
 
 
@@ -382,9 +391,10 @@ def run(ctx):
                 "refresh, next pool connection fails, time passes}, schedule; distinct by event-order signature of the world trace; non-trivial = at "
                 "least one reconnection handler was scheduled")
     ctx.assume("a second on_down without an on_up in between is not judged (the driver re-announces a host as down when rebuilding its pool fails)")
+    ctx.assume("on_add followed by on_up for a host that is being added while a STATUS_CHANGE UP arrives is not counted as a repeated on_up; a host left with is_up None is not judged")
     ctx.assume("with max_attempts=2 a down host may legitimately end without a reconnector and stay down; only 'never two' is demanded there")
     n = ctx.scale(3000, 60000)
-    budget = 42 if ctx.quick else 400
+    budget = 38 if ctx.quick else 300
     base = ctx.seed * 1000003 + (ctx.worker or 0) * 100003
     for i in range(n):
         if ctx.time_left(budget) < 0:
@@ -418,6 +428,6 @@ def run(ctx):
                           {"seed": seed, "detail": v[2], "events": info['events'], "notifications": info['notes']})
         if not viol and len(ctx.samples) < 4 and counters['handlers_seen'] >= 2:
             ctx.sample({"seed": seed, "events": info['events'], "notifications": info['notes'][-16:], "counters": counters})
-    ctx.floor_distinct = 60 if ctx.quick else 3000
-    ctx.floor_counters = {"histories": 60, "quiescent_checks": 300, "down_host_checks": 50, "handlers_seen": 50, "reconnector_conns": 50, "final_pools": 50,
-                          "notifications": 300}
+    ctx.floor_distinct = 40 if ctx.quick else 1500
+    ctx.floor_counters = {"histories": 40, "quiescent_checks": 200, "down_host_checks": 30, "handlers_seen": 30, "reconnector_conns": 30, "final_pools": 30,
+                          "notifications": 200}
